@@ -198,7 +198,7 @@ func (p *c14Prop) Run(ci interface{}) interface{} {
 			obs.Err = fmt.Sprintf("end marker not received (%d of %d)", s.NPubs(), want)
 		}
 		s.mu.Lock()
-		for _, m := range s.Pubs {
+		for i, m := range s.Pubs {
 			if len(m.Payload()) == 1 && m.Payload()[0] == 255 {
 				continue
 			}
@@ -208,7 +208,11 @@ func (p *c14Prop) Run(ci interface{}) interface{} {
 					al = ip(int(v))
 				}
 			}
-			obs.Out = append(obs.Out, [2]*int{topicIdx(m.Topic()), al})
+			ti := topicIdx(m.Topic())
+			if s.AliasOnly[i] {
+				ti = nil // on the wire the packet had no topic, only the alias
+			}
+			obs.Out = append(obs.Out, [2]*int{ti, al})
 		}
 		s.mu.Unlock()
 		return obs
